@@ -154,6 +154,9 @@ func (interp *Interpreter) Execute(p *Program) (res reflect.Value, err error) {
 
 	// Init interpreter execution memory frame.
 	interp.frame.setrunid(interp.runid())
+	// When the evaluation has returned, a cancelled one included, the function values
+	// which it has defined can be called by the host.
+	defer func() { interp.frame.setrunid(interp.runid()) }()
 	interp.frame.mutex.Lock()
 	interp.resizeFrame()
 	interp.frame.mutex.Unlock()
